@@ -40,3 +40,15 @@ func vB2U(b bool) uint64 {
 	}
 	return 0
 }
+
+// VDialOnConn: a real Client after a real Dial (receive loop and keep-alive loop running) on the given connection.
+func VDialOnConn(cfg *ClientConfig, conn net.Conn) *Client {
+	c := NewClient(util.NoOpLogger{}, cfg)
+	c.mockupDialFunc = func() (net.Conn, error) { return conn, nil }
+	if err := c.Dial("gw"); err != nil {
+		return nil
+	}
+	return c
+}
+
+func VState(c *Client) util.ClientState { return c.state.Get() }
